@@ -139,7 +139,7 @@ impl Prop for C19 {
     fn budget(tier: Tier) -> Budget {
         match tier {
             Tier::Quick => Budget { cases: 1500, shards: 16 },
-            Tier::Thorough => Budget { cases: 12_000, shards: 16 },
+            Tier::Thorough => Budget { cases: 84000, shards: 16 },
         }
     }
 
